@@ -47,7 +47,11 @@ def run(tier, wd):
     cases += deep
     rep.cov["sampled_deep_vectors"] = len(deep)
     cases.sort(key=lambda c: (c["depth"], c["kinds"]))
-    results = core.run_harness(binpath, "flow", [{"depth": c["depth"], "kinds": c["kinds"]} for c in cases], wd)
+    # every second vector is run on a chain whose levels also take their own options and arguments (the flows are wired while
+    # descending through levels that validate tokens)
+    for k, c in enumerate(cases):
+        c["args"] = k % 2 == 1
+    results = core.run_harness(binpath, "flow", [{"depth": c["depth"], "kinds": c["kinds"], "args": c["args"]} for c in cases], wd)
     nontriv = 0
     for c, r in zip(cases, results):
         rep.cov["evaluations"] += 1
@@ -67,7 +71,7 @@ def run(tier, wd):
         elif r.get("err"):
             why = "Run returned an error on a valid invocation: %s" % r["err"]
         if why:
-            rep.violation("depth=%d kinds=%s: %s" % (c["depth"], c["kinds"], why), {"engine": "flow", "case": c, "observed": r})
+            rep.violation("depth=%d kinds=%s%s: %s" % (c["depth"], c["kinds"], " (levels with arguments)" if c["args"] else "", why), {"engine": "flow", "case": c, "observed": r})
         raised = sum(1 for k in c["kinds"] if k in ("panics", "exits"))
         if sum(1 for n in c["log"]) >= 2 and raised >= 1:
             nontriv += 1
@@ -111,7 +115,7 @@ def replay(path, wd):
         o = json.load(f)["replay"]
     binpath = core.build_harness()
     c = o["case"]
-    r = core.run_harness(binpath, "flow", [{"depth": c["depth"], "kinds": c["kinds"]}], wd, shards=1)[0]
+    r = core.run_harness(binpath, "flow", [{"depth": c["depth"], "kinds": c["kinds"], "args": c.get("args", False)}], wd, shards=1)[0]
     print("replay: depth=%d kinds=%s -> %s ; specification: %s" % (c["depth"], c["kinds"], json.dumps(r), json.dumps({k: c[k] for k in ("log", "fin", "by", "exits")})))
     bad = r.get("log") != c["log"] or r.get("fin") != c["fin"] or r.get("by") != c["by"] or r.get("exits") != c["exits"]
     return 1 if bad else 0
